@@ -404,6 +404,9 @@ impl<T> Future for ReceiveFuture<'_, T> {
                 _ => {
                     if this.is_stream {
                         this.state = FutureState::Zero;
+                        // re-arm the signal: a completed wait left it UNLOCKED/TERMINATED, the
+                        // next registration must start from LOCKED again
+                        this.sig = Signal::new_async();
                         continue;
                     }
                     panic!("polled after result is already returned")
